@@ -310,6 +310,9 @@ func (r *Run) execute() *Run {
 	return r
 }
 
+// LeakName extracts the innermost gbn function of a goroutine stack.
+func LeakName(stack string) string { return leakName(stack) }
+
 // leakName extracts the innermost gbn function of a goroutine stack.
 func leakName(stack string) string {
 	for _, ln := range strings.Split(stack, "\n") {
